@@ -64,6 +64,10 @@ def structural_variants():
     for d in descs:
         out.append('{"jsonrpc": "2.0", "method": "echo", "params": [{"__jsonclass__": %s}], "id": 1}' % d)
         out.append('{"jsonrpc": "2.0", "method": "echo", "params": [1], "id": {"__jsonclass__": %s}}' % d)
+    for d in descs:
+        # neither "jsonrpc" nor "id": the invalid-request message is built from the loaded request
+        out.append('{"method": "echo", "params": [{"__jsonclass__": %s}]}' % d)
+        out.append('[{"method": "echo", "params": [{"__jsonclass__": %s}]}, 1]' % d)
     out.append('{"__jsonclass__": ["decimal.Decimal", ["2"]]}')
     out.append('[{"__jsonclass__": []}]')
     return out
@@ -187,6 +191,25 @@ class C02Run(object):
         def fail(*a, **k):
             raise Boom("failure é")
 
+        if self.p.get("dispatch") == "instance":
+            class Service(object):
+                """A user-written dispatcher: own table, lets exceptions through."""
+
+                table = {1: "x"}
+
+                def _dispatch(self, method, params):
+                    if method == "echo":
+                        return [list(params) if isinstance(params, list) else params, {}]
+                    if method == "add":
+                        return params[0] + params[1]
+                    if method == "none":
+                        return None
+                    if method == "fail":
+                        return self.table[7]  # KeyError(7): the first argument is not a string
+                    raise FileNotFoundError(2, "No such method file", method)
+
+            disp.register_instance(Service())
+            return
         disp.register_function(lambda *a, **k: [list(a), k], "echo")
         disp.register_function(lambda a, b: a + b, "add")
         disp.register_function(fail, "fail")
@@ -321,6 +344,7 @@ class C02Scenario(object):
             for i in range(0, len(dm), self.BATCH):
                 server = ["plain", "dispatcher", "pooled", "dispatcher"][k % 4]
                 self.enumerated.append({"server": server, "version": [2.0, 1.0][(k // 4) % 2], "jsonclass": (k // 8) % 2 == 0,
+                                        "dispatch": "instance" if k % 5 == 4 else "default",
                                         "base": base, "damage": dm[i:i + self.BATCH]})
                 k += 1
         self.must_cover = len(self.enumerated)
@@ -335,7 +359,8 @@ class C02Scenario(object):
         dm = damages_of(base)
         rng.shuffle(dm)
         return {"server": rng.choice(["plain", "pooled", "dispatcher"]), "version": rng.choice([2.0, 1.0]),
-                "jsonclass": rng.random() < 0.7, "base": base, "damage": dm[:self.BATCH]}
+                "jsonclass": rng.random() < 0.7, "dispatch": rng.choice(["default", "default", "instance"]),
+                "base": base, "damage": dm[:self.BATCH]}
 
     def run(self, program, decider, chooser=None):
         s = core.Sched(decider, step_cap=600000, horizon=8192.0, chooser=chooser)
@@ -344,6 +369,7 @@ class C02Scenario(object):
         viol, judged = analyse_c02(program, s, run, verdict)
         p = dict(s.probes)
         p["server_" + program["server"]] = 1
+        p["dispatch_" + str(program.get("dispatch", "default"))] = 1
         kinds = set(d[0] for d in program["damage"])
         for k in kinds:
             p["damage_" + k] = 1
@@ -374,7 +400,7 @@ class C02Scenario(object):
                     q = copy.deepcopy(p)
                     del q["damage"][i]
                     yield q
-        for key, val in (("server", "dispatcher"), ("version", 2.0), ("jsonclass", True)):
+        for key, val in (("server", "dispatcher"), ("version", 2.0), ("jsonclass", True), ("dispatch", "default")):
             if p.get(key) != val:
                 q = copy.deepcopy(p)
                 q[key] = val
